@@ -73,6 +73,9 @@ NAMES = ["A", "a b", " lead", "trail ", "x<y&z>", "q\"uote'", "tab\there", "new\
 # ------------------------------------------------------------------ sync documents
 
 
+IN_CLAIM = ("plain", "promise", "promise-nested", "base", "twin", "dotted", "twin-promise")
+
+
 def gen_sync_doc(rng, base: L.Base, flavour: str):
     """abstract sync-only document; returns (doc, meta)"""
     nid = itertools.count(10000)
@@ -201,7 +204,7 @@ def gen_twinp_doc(rng, base: L.Base):
         i = next(nid)
         return {"nid": i, "nid2": i + 5000, "keys": [["name", {"s": name}]], **kw}
 
-    deep = rng.random() < 0.3
+    deep = rng.random() < 0.2
     pname, oname = nm("Base"), nm("Obj")
     pid = f"p{next(nid)}"
     provider = entry(pname, pid=pid)
@@ -214,7 +217,7 @@ def gen_twinp_doc(rng, base: L.Base):
         if rng.random() < 0.5:
             a["set"].append(["description", {"v": {"s": "reads a value"}}])
         for e in (a, b):
-            if rng.random() < 0.45:
+            if rng.random() < (0.35 if e is a else 0.5):
                 e["sync"] = [["owned_properties", [entry(nm("prop")) for _ in range(rng.randint(1, 2))]]]
         if rng.random() < 0.3:
             b.setdefault("set", []).append(["description", {"v": {"s": "reads a value"}}])
@@ -225,7 +228,7 @@ def gen_twinp_doc(rng, base: L.Base):
     twins = [a, b]
     # half of the documents in the order "promise carrier, its twin, the declaring entry" (the carrier waits while the
     # twin creates the object), the rest in a random order
-    critical = rng.random() < 0.5
+    critical = rng.random() < 0.6
     if not critical:
         rng.shuffle(twins)
     if deep:
@@ -343,7 +346,11 @@ def run_sync(ctx, out, bases, req, pending):
         if not doc:
             continue
         flav_count[flavour] = flav_count.get(flavour, 0) + 1
-        res = apply_twice(base, doc)
+        # every fourth document of the small models: save + load from disk between the two runs
+        reload_dir = str(ctx.scratch) if (k % 4 == 3 and key in ("empty52", "write") and flavour in IN_CLAIM) else None
+        res = apply_twice(base, doc, reload_dir)
+        if reload_dir is not None:
+            flav_count["+reload"] = flav_count.get("+reload", 0) + 1
         nontriv = res["first"][0] == "ok" and res["created_first"] > 0
         out.case(("sync", key, common.sha(doc)),
                  {"stream": "sync", "model": key, "flavour": flavour, "doc": doc,
@@ -353,17 +360,30 @@ def run_sync(ctx, out, bases, req, pending):
                  nontriv)
         out.hit(f"sync.first:{res['first'][0] if res['first'][0] == 'ok' else res['first'][1]['error']}")
         out.traces_validated += 1
-        judge_sync(out, base, doc, flavour, res, excluded)
+        judge_sync(out, base, doc, flavour, res, excluded, reloaded=reload_dir is not None)
         req.append({"op": "apply2", "mm": "gen", "graph": base.graph, "doc": doc, "doc2": renumber(doc, 20000)})
         pending.append(("sync", base, doc, flavour, res))
     out.extra["sync_documents_by_flavour"] = flav_count
     out.extra["excluded_points"] = excluded
 
 
-def apply_twice(base, doc):
-    m = L.load_model(base.key)
+def apply_twice(base, doc, reload_dir=None):
+    """apply `doc` twice; with `reload_dir` the model is a scratch copy that is saved after the first run and
+    loaded again from disk for the second (what a user of the CLI does: `decl … ; decl …`)"""
+    capellambse, decl = L.cap()
+    if reload_dir is not None:
+        import pathlib
+        import shutil
+
+        src = (common.REPO / L.MODELS[base.key]).parent
+        dst = pathlib.Path(reload_dir) / "model"
+        shutil.rmtree(dst, ignore_errors=True)
+        shutil.copytree(src, dst)
+        path = str(dst / pathlib.Path(L.MODELS[base.key]).name)
+        m = capellambse.MelodyModel(path)
+    else:
+        m = L.load_model(base.key)
     n0 = len(list(m.search()))
-    _, decl = L.cap()
     import yaml
 
     text = yaml.dump(L.to_decl(doc, base), Dumper=decl.YDMDumper, sort_keys=False)
@@ -373,6 +393,19 @@ def apply_twice(base, doc):
         return res
     n1 = len(list(m.search()))
     res["created_first"] = n1 - n0
+    if reload_dir is not None:
+        try:
+            m.save()
+            m = capellambse.MelodyModel(path)
+        except Exception as e:  # noqa: BLE001
+            res["second"] = ("err", {"error": f"save-reload:{type(e).__name__}"})
+            res["created_second"] = 0
+            return res
+        n1r = len(list(m.search()))
+        if n1r != n1:
+            res["second"] = ("err", {"error": f"reload-changes-object-count:{n1}->{n1r}"})
+            res["created_second"] = n1r - n1
+            return res
     st2, r2 = L.apply_impl(m, None, base, yaml_text=text)
     n2 = len(list(m.search()))
     res["second"] = (st2, r2 if st2 != "ok" else L.render_impl(m, base, r2))
@@ -381,9 +414,14 @@ def apply_twice(base, doc):
     return res
 
 
-def judge_sync(out, base, doc, flavour, res, excluded):
+def judge_sync(out, base, doc, flavour, res, excluded, reloaded=False):
     """the monitor: second application leaves the model exactly as the first left it"""
-    in_claim = flavour in ("plain", "promise", "promise-nested", "base", "twin", "dotted", "twin-promise")
+    if reloaded:
+        class _Tag:
+            def find(self, sig, what, case):
+                out.find(sig + "+reload", what + " (model saved and loaded again between the runs)", dict(case, reload=True))
+        return judge_sync(_Tag(), base, doc, flavour, res, excluded)
+    in_claim = flavour in IN_CLAIM
     if res["first"][0] != "ok" and res["first"][1].get("error") != "diverge" and in_claim:
         out.find(f"sync-first|raises:{res['first'][1]['error']}|{flavour}",
                  f"{base.key}: first application of a valid {flavour} sync document raises {res['first'][1]}",
@@ -440,8 +478,21 @@ def judge_sync(out, base, doc, flavour, res, excluded):
 # ------------------------------------------------------------------ yaml streams
 
 
+_POOL: list = []  # finished values of the stream under construction (re-used instances become YAML aliases)
+NONSTR_KEYS = [1, 0, -7, None, True, 2.5]
+
+
 def gen_value(rng, depth, decl, NewObject):
+    v = _gen_value(rng, depth, decl, NewObject)
+    if not isinstance(v, (str, int, float, bool, type(None))):
+        _POOL.append(v)
+    return v
+
+
+def _gen_value(rng, depth, decl, NewObject):
     r = rng.random()
+    if _POOL and rng.random() < 0.12:
+        return rng.choice(_POOL)  # the very same instance again: PyYAML writes an anchor and an alias
     if depth > 2 or r < 0.3:
         k = rng.random()
         if k < 0.45:
@@ -456,10 +507,13 @@ def gen_value(rng, depth, decl, NewObject):
             return decl.Promise(rng.choice(NAMES[:-1] + ["p-1", "123"]))
         return decl.UUIDReference(rng.choice(["00000000-0000-0000-0000-000000000000", "abc_DEF-9", "x"]))
     if r < 0.45:
-        return [gen_value(rng, depth + 1, decl, NewObject) for _ in range(rng.randint(0, 3))]
+        l = [gen_value(rng, depth + 1, decl, NewObject) for _ in range(rng.randint(0, 3))]
+        return tuple(l) if rng.random() < 0.04 else l
     keys = rng.sample(["name", "_type", "k:1", "a b", "type", "x", "parent", "é", "0", "null"], rng.randint(0, 4))
     d = {k: gen_value(rng, depth + 1, decl, NewObject) for k in keys}
     if r < 0.62:
+        if rng.random() < 0.06:  # keys that are not strings (YAML allows any scalar)
+            d[rng.choice(NONSTR_KEYS)] = gen_value(rng, depth + 1, decl, NewObject)
         return d
     if r < 0.82:
         return decl.FindBy(d)
@@ -483,6 +537,7 @@ def guarded(out, sig, case, fn, *a, **kw):
 
 
 def gen_stream(rng, decl, NewObject):
+    _POOL.clear()
     n = rng.randint(0, 4)
     instrs = []
     for _ in range(n):
@@ -528,6 +583,43 @@ def markers_in(x, decl, NewObject, acc):
     return acc
 
 
+def features(x, decl, NewObject, acc, seen=None):
+    """tuple / nonstr-key / alias (an instance occurring twice) anywhere in the value"""
+    seen = {} if seen is None else seen
+    if not isinstance(x, (str, int, float, bool, type(None))):
+        if id(x) in seen:
+            acc.add("alias")
+        seen[id(x)] = x
+    if isinstance(x, decl.FindBy):
+        features(dict(x.attributes), decl, NewObject, acc, seen)
+    elif isinstance(x, NewObject):
+        features(x._kw, decl, NewObject, acc, seen)
+    elif isinstance(x, dict):
+        for k, v in x.items():
+            if not isinstance(k, str):
+                acc.add("nonstr-key")
+            features(v, decl, NewObject, acc, seen)
+    elif isinstance(x, (list, tuple)):
+        if isinstance(x, tuple):
+            acc.add("tuple")
+        for v in x:
+            features(v, decl, NewObject, acc, seen)
+    return acc
+
+
+def detuple(x, decl, NewObject):
+    """the value with every tuple turned into a list (YAML has sequences only)"""
+    if isinstance(x, decl.FindBy):
+        return decl.FindBy(detuple(dict(x.attributes), decl, NewObject))
+    if isinstance(x, NewObject):
+        return NewObject(x._type_hint, **detuple(x._kw, decl, NewObject))
+    if isinstance(x, dict):
+        return {k: detuple(v, decl, NewObject) for k, v in x.items()}
+    if isinstance(x, (list, tuple)):
+        return [detuple(v, decl, NewObject) for v in x]
+    return x
+
+
 def structurally_equal(a, b, decl, NewObject):
     """equality that looks inside NewObject (used to tell a missing __eq__ from a real loss)"""
     if isinstance(a, NewObject) and isinstance(b, NewObject):
@@ -561,8 +653,8 @@ def to_dval(x, decl, NewObject):
     if isinstance(x, NewObject):
         return {"n": [to_dval(x._type_hint, decl, NewObject), [[k, to_dval(v, decl, NewObject)] for k, v in x._kw.items()]]}
     if isinstance(x, dict):
-        return {"m": [[k, to_dval(v, decl, NewObject)] for k, v in x.items()]}
-    if isinstance(x, list):
+        return {"m": [[k if isinstance(k, str) else {"key": repr(k)}, to_dval(v, decl, NewObject)] for k, v in x.items()]}
+    if isinstance(x, (list, tuple)):
         return {"l": [to_dval(v, decl, NewObject) for v in x]}
     raise TypeError(type(x))
 
@@ -621,12 +713,21 @@ def run_yaml(ctx, out, yreq, ypending):
 
     rng = ctx.rng
     neq_classes: dict[str, int] = {}
+    feat_count: dict[str, int] = {}
+    out.extra["yaml_streams_by_feature"] = feat_count
     for k in range(pick(ctx, 400, 4000)):
         instrs, meta = gen_stream(rng, decl, NewObject)
         marks = sorted(markers_in(instrs, decl, NewObject, set()))
+        feats = features([instrs, meta], decl, NewObject, set())
+        for f in feats or {"none"}:
+            feat_count[f] = feat_count.get(f, 0) + 1
         case = {"kind": "yaml", "instrs": to_dval(instrs, decl, NewObject)["l"],
-                "meta": None if meta is None else to_dval(meta, decl, NewObject)["m"]}
+                "meta": None if meta is None else to_dval(meta, decl, NewObject)["m"], "share": "alias" in feats}
         out.case(("yaml", common.sha(case)), {"stream": "yaml", **case} if k == 3 else None, bool(marks))
+        if "tuple" in feats:
+            # YAML has no tuples: SafeDumper writes a sequence, the loader returns a list. Outside the claim
+            # (excluded point, Lean: WF has no tuples); everything else must still come back.
+            instrs, meta = detuple(instrs, decl, NewObject), (None if meta is None else detuple(meta, decl, NewObject))
         try:
             text = decl.dump(instrs, metadata=meta)
             back_meta, back = decl.load_with_metadata(io.StringIO(text))
@@ -651,6 +752,8 @@ def run_yaml(ctx, out, yreq, ypending):
             out.find(f"dump-load|unparsable-output:{type(e).__name__}|{'+'.join(marks) or 'plain'}",
                      f"the text decl.dump wrote cannot be composed: {str(e)[:120]}", case)
             continue
+        if "nonstr-key" in feats:
+            continue  # the model's mappings have string keys: monitor only
         yreq.append({"op": "yaml.dump", "instrs": case["instrs"], "meta": case["meta"] or []})
         ypending.append(("yaml.represent", case, docs))
         yreq.append({"op": "yaml.load", "docs": [node_json(n) for n in yaml.compose_all(text, Loader=decl.YDMLoader)]})
@@ -663,7 +766,7 @@ def run_yaml(ctx, out, yreq, ypending):
         ok, t = guarded(out, "dump-load|dump", {"kind": "yaml", "instrs": to_dval(instrs, decl, NewObject)["l"],
                                                 "meta": None if meta is None else to_dval(meta, decl, NewObject)["m"]},
                         decl.dump, instrs, metadata=meta)
-        if not ok:
+        if not ok or "nonstr-key" in features([instrs, meta], decl, NewObject, set()):
             continue
         r = rng.random()
         if r < 0.3:
@@ -777,6 +880,54 @@ def run_meta(ctx, out, yreq, ypending):
         ypending.append(("verify", v, impl))
 
 
+def run_strict(ctx, out):
+    """`strict=True` end to end: what `dump(…, metadata=model)` writes is accepted by `apply(model, …, strict=True)`
+    for the same model and rejected once any verified field is changed (checked on the text that was written)"""
+    capellambse, decl = L.cap()
+    import yaml
+
+    n = {"accepted": 0, "rejected": 0}
+    for key in ("empty52", "write"):
+        base = L.Base(key)
+        m = L.load_model(key)
+        doc = [{"parent": {"u": base.root_id("rf")}, "sync": [["functions", [{"nid": 10000, "nid2": 15000,
+                                                                               "keys": [["name", {"s": "strict e2e"}]]}]]]}]
+        case = {"kind": "strict", "model": key}
+        ok, text = guarded(out, f"strict|dump|{key}", case, decl.dump, L.to_decl(doc, base), metadata=m, generator="verif")
+        if not ok:
+            continue
+        meta, _ = decl.load_with_metadata(io.StringIO(text))
+        out.case(("strict", key), None, True)
+        try:
+            decl.apply(L.load_model(key), io.StringIO(text), strict=True)
+            n["accepted"] += 1
+        except Exception as e:  # noqa: BLE001
+            out.find(f"strict|rejects-own-dump:{type(e).__name__}|{key}",
+                     f"apply(strict=True) rejects the text dump(metadata=model) wrote for the same model: {str(e)[:160]}", case)
+        for fld, mut in (("url", lambda md: md["model"].__setitem__("url", str(md["model"]["url"]) + "x")),
+                         ("revision", lambda md: md["model"].__setitem__("revision", "0" * 40)),
+                         ("entrypoint", lambda md: md["model"].__setitem__("entrypoint", "other.aird")),
+                         ("version-newer", lambda md: md["written_by"].__setitem__("capellambse", "99999.0")),
+                         ("version-malformed", lambda md: md["written_by"].__setitem__("capellambse", "1.0+local")),
+                         ("no-writer", lambda md: md.pop("written_by")),
+                         ("no-metadata", lambda md: md.clear())):
+            md = copy.deepcopy(meta)
+            mut(md)
+            t2 = yaml.dump_all([md, L.to_decl(doc, base)], Dumper=decl.YDMDumper) if md else decl.dump(L.to_decl(doc, base))
+            out.case(("strict", key, fld), None, True)
+            try:
+                decl.apply(L.load_model(key), io.StringIO(t2), strict=True)
+                out.find(f"strict|accepts-tampered:{fld}|{key}",
+                         f"apply(strict=True) accepts a document whose metadata field {fld} does not match the model",
+                         dict(case, field=fld))
+            except ValueError:
+                n["rejected"] += 1
+            except Exception as e:  # noqa: BLE001
+                out.find(f"strict|raises:{type(e).__name__}|{fld}", f"apply(strict=True) raises {type(e).__name__}: {str(e)[:160]}",
+                         dict(case, field=fld))
+    out.extra["strict_end_to_end"] = n
+
+
 # ------------------------------------------------------------------ run
 
 
@@ -789,6 +940,7 @@ def run(ctx: Ctx) -> Outcome:
     run_sync(ctx, out, bases, req, pending)
     run_yaml(ctx, out, yreq, ypending)
     run_meta(ctx, out, yreq, ypending)
+    run_strict(ctx, out)
     if os.environ.get("VERIF_NO_MODEL") != "1":
         answers = []
         for i in range(0, len(req), 300):
@@ -853,12 +1005,28 @@ def replay(ctx: Ctx, case: dict):
 
     if case.get("kind") == "sync":
         base = L.Base(case["model"])
-        res = apply_twice(base, case["doc"])
+        import tempfile
+
+        with tempfile.TemporaryDirectory(prefix="c13-replay-") as td:
+            res = apply_twice(base, case["doc"], td if case.get("reload") else None)
         o = Outcome()
         judge_sync(o, base, case["doc"], case["flavour"], res, {})
         return o.findings[0].what if o.findings else None
     if case.get("kind") == "yaml":
+        memo: dict = {}
+
         def from_dval(j):
+            if case.get("share") and not ("s" in j or "plain" in j):
+                key = common.sha(j)
+                if key not in memo:
+                    memo[key] = from_dval0(j)
+                return memo[key]
+            return from_dval0(j)
+
+        def keyof(k):
+            return k if isinstance(k, str) else eval(k["key"], {"__builtins__": {}}, {})  # repr of int/float/bool/None
+
+        def from_dval0(j):
             if "s" in j:
                 return j["s"]
             if "plain" in j:
@@ -873,7 +1041,7 @@ def replay(ctx: Ctx, case: dict):
             if "n" in j:
                 return NewObject(from_dval(j["n"][0]), **{k: from_dval(v) for k, v in j["n"][1]})
             if "m" in j:
-                return {k: from_dval(v) for k, v in j["m"]}
+                return {keyof(k): from_dval(v) for k, v in j["m"]}
             return [from_dval(v) for v in j["l"]]
 
         instrs = [from_dval(v) for v in case["instrs"]]
